@@ -149,7 +149,18 @@ class Ctx:
     def drive(self, driver, lines, timeout=1800):
         """ Pipe operation lines through a Lean line-protocol driver, return output lines """
         text = '\n'.join(lines) + '\n'
-        rc, out, err = sh(['lake', 'env', 'lean', '--run', driver], cwd=LEAN, inp=text, timeout=timeout)
+        # hold the project lock: another check's extract + build must not swap .olean files under a running driver
+        lock = open(os.path.join(LEAN, '.verif.lock'), 'w')
+        fcntl.flock(lock, fcntl.LOCK_EX)
+        try:
+            rc, out, err = sh(['lake', 'env', 'lean', '--run', driver], cwd=LEAN, inp=text, timeout=timeout)
+            if rc != 0 and 'object file' in err and 'does not exist' in err:
+                # a concurrent run against another tree regenerated files since our build: rebuild once and retry
+                mods = [m for m in re.findall(r"of module (\S+) does not exist", err)]
+                sh(['lake', 'build'] + mods, cwd=LEAN, timeout=3000)
+                rc, out, err = sh(['lake', 'env', 'lean', '--run', driver], cwd=LEAN, inp=text, timeout=timeout)
+        finally:
+            fcntl.flock(lock, fcntl.LOCK_UN)
         if rc != 0:
             raise DriverError(f'driver {driver} rc={rc}\n{err[-3000:]}\n{out[-1000:]}')
         res = out.split('\n')
